@@ -16,26 +16,15 @@ Record xcase := {
   x_globals : env
 }.
 
-Fixpoint find_text (es : list expr) (ts : list string) (e : expr) : string :=
-  match es, ts with
-  | e' :: r, t :: rt => if expr_eqb e' e then t else find_text r rt e
-  | _, _ => "?"
-  end.
-Definition text_of (c : xcase) (e : expr) : string := find_text (subexprs (x_body c)) (x_texts c) e.
-
-Fixpoint index_from (es : list expr) (e : expr) (i : nat) : nat :=
-  match es with
-  | [] => i
-  | e' :: r => if expr_eqb e' e then i else index_from r e (S i)
-  end.
-Definition index_of (c : xcase) (e : expr) : nat := index_from (subexprs (x_body c)) e 0.
+Definition text_of (c : xcase) (i : nat) : string := nth i (x_texts c) "?".
+Definition node (c : xcase) (i : nat) : expr := nth i (subexprs (x_body c)) EOmit.
 
 Definition tables (c : xcase) : list env :=
   lookup_tables (x_kwargs c) (x_cond_params c) (x_closure c) (x_globals c).
 Definition start_env (c : xcase) : env := flatten (tables c).
 
-Definition py_run (c : xcase) := ev py_prims (x_body c) (start_env c, []).
-Definition rc_run (c : xcase) := rc py_prims (x_body c) (start_env c, []).
+Definition py_run (c : xcase) := ev py_prims 0 (x_body c) (start_env c, []).
+Definition rc_run (c : xcase) := rc py_prims 0 (x_body c) (up (start_env c), []).
 
 Inductive xoutcome :=
 | XViolation (ls : lines)
@@ -81,7 +70,12 @@ Fixpoint ilog_eqb (a b : list (nat * val)) : bool :=
   | _, _ => false
   end.
 
-Definition ilog_of (c : xcase) (l : log) : list (nat * val) := map (fun p => (index_of c (fst p), snd p)) l.
+Definition ilog_of (c : xcase) (l : log) : list (nat * val) := l.
+
+(** slice objects are built by the interpreter and by the re-evaluator, but are not values of the
+    instrumented expression *)
+Definition no_slices (c : xcase) (l : log) : log :=
+  filter (fun p => match node c (fst p) with ESlice _ _ => false | _ => true end) l.
 
 Fixpoint ilast (l : list (nat * val)) (i : nat) : option val :=
   match l with
@@ -101,7 +95,7 @@ Definition agree_python (c : xcase) (o : xobs) : bool :=
   | Err _ => match o_pytruth o with None => true | Some _ => false end
   | Ok (v, (_, l)) =>
       match o_pytruth o with
-      | Some t => Bool.eqb t (truth_of v) && ilog_eqb (ilog_of c l) (o_pylog o)
+      | Some t => Bool.eqb t (truth_of v) && ilog_eqb (no_slices c l) (o_pylog o)
       | None => false
       end
   end.
@@ -121,13 +115,13 @@ Definition agree_library (c : xcase) (o : xobs) : bool :=
   end.
 
 (** ** Executable statements *)
-Definition nodes_with_text (c : xcase) (k : string) : list expr :=
-  filter (fun e => String.eqb (text_of c e) k) (subexprs (x_body c)).
+Definition nodes_with_text (c : xcase) (k : string) : list nat :=
+  filter (fun i => String.eqb (text_of c i) k) (seq 0 (size (x_body c))).
 
-Definition is_inner (c : xcase) (e : expr) : bool := existsb (expr_eqb e) (inner_exprs (x_body c)).
+Definition is_inner (c : xcase) (i : nat) : bool := existsb (Nat.eqb i) (inner_nodes 0 (x_body c)).
 
-Definition in_log (l : log) (e : expr) (v : val) : bool :=
-  existsb (fun p => expr_eqb (fst p) e && val_eqb (snd p) v) l.
+Definition in_log (l : log) (i : nat) (v : val) : bool :=
+  existsb (fun p => Nat.eqb (fst p) i && val_eqb (snd p) v) l.
 
 (** the first falsifying assignment of a failing all(<generator>), by Python's own semantics *)
 Definition all_counterexample (m : env) (e : expr) : option (list (string * val)) :=
@@ -143,21 +137,21 @@ Definition all_counterexample (m : env) (e : expr) : option (list (string * val)
 Definition line_is_true (c : xcase) (m : env) (l : log) (k : string) (v : val) : bool :=
   (* an argument of the call, under its own name *)
   existsb (fun p => String.eqb (fst p) k && val_eqb (snd p) v) (x_kwargs c) ||
-  existsb (fun e =>
+  existsb (fun i =>
     match v with
     | VAllFail _ inputs =>
-        match all_counterexample m e with
+        match all_counterexample m (node c i) with
         | Some expected => lines_eqb expected inputs
         | None => false
         end
     | _ =>
-        if is_inner c e
-        then match comp_value py_prims e m with Ok w => val_eqb w v | Err _ => false end
-        else in_log l e v
+        if is_inner c i
+        then match comp_value py_prims (node c i) m with Ok w => val_eqb w v | Err _ => false end
+        else in_log l i v
     end) (nodes_with_text c k) ||
   (* the target of an assignment expression, shown with the value assigned *)
-  existsb (fun e => match e with ENamed tg _ => String.eqb tg k && in_log l e v | _ => false end)
-          (subexprs (x_body c)).
+  existsb (fun i => match node c i with ENamed tg _ => String.eqb tg k && in_log l i v | _ => false end)
+          (seq 0 (size (x_body c))).
 
 Definition listed (ls : lines) (k : string) (v : val) : bool :=
   existsb (fun p => String.eqb (fst p) k && (val_eqb (snd p) v || match snd p with VAllFail _ _ => true | _ => false end)) ls.
@@ -174,9 +168,13 @@ Definition must_be_listed (c : xcase) (e : expr) (v : val) : bool :=
 Definition no_name_is_none (c : xcase) : bool :=
   forallb (fun p => match snd p with VNone => false | _ => true end) (start_env c).
 
+(** nodes inside an f-string: the library shows the whole f-string and does not descend into it *)
+Definition fstring_inner (c : xcase) : list nat := fstring_nodes (x_body c).
+
 (** C06: every line shows Python's value; every representable argument is listed; every name,
-    attribute, call, subscript and comprehension Python evaluated outside comprehension scope is listed *)
-Definition spec_C06 (c : xcase) (o : xobs) : bool :=
+    attribute, call, subscript and comprehension Python evaluated outside comprehension scope is
+    listed.  [exempt_fstring]: do not demand lines for nodes inside f-strings (finding D21). *)
+Definition spec_C06_gen (exempt_fstring : bool) (c : xcase) (o : xobs) : bool :=
   if negb (Z.eqb (o_outcome o) 0) then true else
   match py_run c with
   | Err _ => true
@@ -185,8 +183,12 @@ Definition spec_C06 (c : xcase) (o : xobs) : bool :=
       forallb (fun p => negb (representable (snd p)) || line_has (o_lines o) (fst p))
               (selected_kwargs (x_kwargs c) (x_cond_params c)) &&
       (negb (no_name_is_none c) ||
-       forallb (fun p => negb (must_be_listed c (fst p) (snd p)) || listed (o_lines o) (text_of c (fst p)) (snd p)) l)
+       forallb (fun p => negb (must_be_listed c (node c (fst p)) (snd p))
+                         || (exempt_fstring && existsb (Nat.eqb (fst p)) (fstring_inner c))
+                         || listed (o_lines o) (text_of c (fst p)) (snd p)) l)
   end.
+Definition spec_C06 := spec_C06_gen false.
+Definition spec_C06_partial := spec_C06_gen true.
 
 (** the class of D12b: a part of a comprehension raises when it is evaluated on its own *)
 Definition speculative_failure (c : xcase) : bool :=
@@ -203,9 +205,7 @@ Definition spec_C07 (c : xcase) (o : xobs) : bool :=
   | Ok (v, (_, l)) =>
       if truth_of v then Z.eqb (o_outcome o) 2 else
       Z.eqb (o_outcome o) 0 && o_text_ok o &&
-      forallb (fun p => let e := nth (fst p) (subexprs (x_body c)) EOmit in
-                        is_inner c e || existsb (fun q => Nat.eqb (index_of c (fst q)) (fst p)) l)
-              (o_recorded o)
+      forallb (fun p => is_inner c (fst p) || existsb (fun q => Nat.eqb (fst q) (fst p)) l) (o_recorded o)
   end.
 
 Fixpoint strictly_sorted (ks : list string) : bool :=
@@ -221,7 +221,7 @@ Definition spec_C20 (c : xcase) (o : xobs) : bool :=
   forallb (fun p =>
      (* values named by the condition or passed as arguments are never functions *)
      (representable (snd p) ||
-      existsb (fun e => match e with ECall _ _ _ | ESub _ _ | EComp _ _ _ _ => true | _ => false end)
+      existsb (fun i => match node c i with ECall _ _ _ | ESub _ _ | EComp _ _ _ _ => true | _ => false end)
               (nodes_with_text c (fst p))) &&
      (negb (String.eqb (fst p) "_ARGS" || String.eqb (fst p) "_KWARGS") ||
       existsb (String.eqb (fst p)) (x_cond_params c))) (o_lines o).
